@@ -354,6 +354,7 @@ def _replay_once(item):
     return rec
 
 
+OLD_LENIENT_ONLY = '===OLD===\nCFG::[outer::[inner::1]]\nFLOW::A -> B\nWORDS::several bare words\n===END===\n'
 OLD_HANDWRITTEN = '===OLD===\nFLOW::A -> B -> C\nWORDS::several bare words\nT::"""triple"""\nTENSION::X vs Y\n===END===\n'
 
 
@@ -367,13 +368,16 @@ def surfaced(text, receipts):
         got = sorted((x["kind"], x["line"], x["col"]) for x in receipts_of(r.get("repairs", [])) if x["kind"] in ("norm", "tq", "mw"))
         ok = r.get("status") != "success" or got == want
         out.append({"route": "validate.repairs" + ("" if prof == "STANDARD" else "." + prof), "ok": ok, "why": "-" if ok else "other"})
+    fresh_lenient = {}
     for mode, kw in (("write.corrections_only.lenient", {"lenient": True}), ("write.corrections_only.strict", {}),
-                     ("write.corrections_only.lenient.over_old_file", {"lenient": True}), ("write.corrections_only.strict.over_old_file", {})):
+                     ("write.corrections_only.lenient.over_old_file", {"lenient": True}), ("write.corrections_only.strict.over_old_file", {}),
+                     ("write.corrections_only.lenient.over_lenient_only_file", {"lenient": True}), ("write.corrections_only.strict.over_lenient_only_file", {})):
         p = os.path.join(st["dir"], "s%d.oct.md" % os.getpid())
-        if mode.endswith("over_old_file"):
-            # the target already holds somebody's hand-written text with rewrite sites of its own: they are not receipts of THIS input
+        if mode.endswith("_file"):
+            # the target already holds somebody's hand-written text with rewrite sites of its own (one that every reader accepts / one that
+            # only the lenient reader accepts): they are not receipts of THIS input
             with open(p, "w", encoding="utf-8", newline="") as f:
-                f.write(OLD_HANDWRITTEN)
+                f.write(OLD_HANDWRITTEN if mode.endswith("over_old_file") else OLD_LENIENT_ONLY)
         elif os.path.exists(p):
             os.unlink(p)
         r = run_async(st["w"].execute(target_path=p, content=text, corrections_only=True, **kw))
@@ -390,6 +394,12 @@ def surfaced(text, receipts):
         # receipts of rewrites the generator never asks for (brace repair, markdown unwrap, salvage, raw wrap): nothing it writes
         # outside literal zones / comments owes one (advisories such as W_DUPLICATE_KEY are not receipts)
         n_extra = sum(1 for c in cs if c.get("code") in ("W_REPAIR_CANDIDATE", "W_MARKDOWN_UNWRAP", "W_SALVAGE_LINE", "W_SALVAGE_LOCALIZED", "W_STRUCT_RAW_WRAP"))
+        # receipts of the lenient reader are receipts about the INPUT: over an old file the call reports the ones it reports over no file
+        len_codes = sorted((str(c.get("code")), c.get("line"), c.get("column")) for c in cs if str(c.get("code", "")).startswith("W_LENIENT"))
+        if mode.endswith("_file"):
+            n_extra += 0 if len_codes == fresh_lenient.get(bool(kw.get("lenient")), len_codes) else 1
+        else:
+            fresh_lenient[bool(kw.get("lenient"))] = len_codes
         ok = n_norm == w_norm and n_mw == w_mw and pos_ok and n_extra == 0
         why = "-" if ok else ("mw-missing" if (n_norm == w_norm and pos_ok and n_mw == 0 and w_mw > 0 and n_extra == 0) else "other")
         out.append({"route": mode, "ok": ok, "why": why})
